@@ -236,6 +236,13 @@ func runOne(sp solverSpec, file string, timeoutS int, ctx context.Context) Solve
 	_ = cmd.Run()
 	secs := time.Since(t0).Seconds()
 	o := out.String()
+	for strings.HasPrefix(o, "WARNING") {
+		if i := strings.Index(o, "\n"); i >= 0 {
+			o = o[i+1:]
+		} else {
+			o = ""
+		}
+	}
 	first := strings.TrimSpace(strings.SplitN(o+"\n", "\n", 2)[0])
 	st := "unknown"
 	switch first {
